@@ -95,7 +95,14 @@ static std::string gen(const std::string &prop, uint64_t base, uint64_t idx, boo
     default: sched = strf("p:%g", 0.02); break;
     }
     line(strf("plan v1 engine=" REENT_ENGINE_NAME " prop=%s seed=0x%llx idx=%llu", prop.c_str(), (unsigned long long)seed, (unsigned long long)idx));
-    line(strf("cfg tasks=%d sched=%s sseed=0x%llx", ntasks, sched.c_str(), (unsigned long long)r.next()));
+    // guard layout: every object ends (or starts) at a page boundary next to an inaccessible page and shared read-only objects are
+    // mapped read-only while the callers run - the MMU then reports accesses that no instrumentation callback sees
+#ifdef REENT_VARIANT_GCC
+    bool guard = idx % 2 == 1;
+#else
+    bool guard = idx % 5 == 3;
+#endif
+    line(strf("cfg tasks=%d sched=%s sseed=0x%llx layout=%s", ntasks, sched.c_str(), (unsigned long long)r.next(), guard ? "guard" : "packed"));
     int next_obj = 0;
     std::vector<std::string> objlines, calllines;  // (set-up calls come first in calllines)
     auto new_obj = [&](int task, size_t size, bool shared = false) {
@@ -275,7 +282,8 @@ static std::string gen(const std::string &prop, uint64_t base, uint64_t idx, boo
 
 // ------------------------------------------------------------------ execution state
 static uint8_t *const kArena = (uint8_t *)0x7d0000000000ULL;
-static constexpr size_t kArenaSize = 4 << 20;
+static constexpr size_t kArenaSize = 4 << 20;  // packed layout compares all of it; the guard layout only uses what its objects need
+static constexpr size_t kPage = 4096;
 
 struct Region { uintptr_t lo, hi; bool writable; };
 static std::vector<Region> g_exe_regions;  // mappings of our own binary
@@ -305,6 +313,12 @@ struct World {
     std::vector<bool> in_shared_call;
     uint64_t pr_badargs = 0, pr_inside = 0, pr_rmw = 0, pr_shared = 0, pr_static_load = 0, pr_unknown_load = 0, loads = 0, stores = 0, calls = 0;
     sim::Digest digest;
+    bool guard_layout = false;
+    char cur_fn[64] = "";                 // plan-level name of the library call in progress (for crash attribution)
+    size_t arena_used = kArenaSize;          // bytes of the arena that hold objects (rounded up to pages)
+    struct HeapObj { uintptr_t p; size_t n; int task; };
+    std::vector<HeapObj> heap;              // blocks allocated by library code during a call: owned by the calling task until freed
+    uint64_t pr_heap = 0;
     uint64_t events = 0;
     uint64_t static_bytes = 0;
     bool verbose = false;
@@ -391,6 +405,14 @@ static void check_access(uintptr_t a, size_t n, bool store, uintptr_t pc) {
             }
             w.pr_static_load++;  // a table that merely lost its const: no conflict as long as nobody writes it
             return;
+        }
+    for (auto &h : w.heap)
+        if (a >= h.p && a + n <= h.p + h.n) {
+            if (h.task == t->id) return;  // a temporary the call allocated for itself
+            std::string fn = sim::g_symtab.func(pc);
+            violation(strf("shared-state:%s:%s", store ? "store" : "load", fn.c_str()),
+                      strf("%s() running for task %d %s %zu byte(s) of a heap block that library code allocated while running for task %d", fn.c_str(), t->id,
+                           store ? "wrote" : "read", n, h.task));
         }
     if (store) {
         std::string fn = sim::g_symtab.func(pc);
@@ -485,6 +507,42 @@ UNSAFE_LIBC(char *, asctime, (const struct tm *t), (t))
 UNSAFE_LIBC(char *, strerror, (int e), (e))
 UNSAFE_LIBC(char *, setlocale, (int c, const char *l), (c, l))
 
+// Heap blocks that library code allocates for itself are that call's own temporaries (like stack locals); they become foreign
+// objects for every other task, and a block that outlives its call is only reachable through static storage, whose write is reported.
+void *__real_malloc(size_t);
+void *__real_calloc(size_t, size_t);
+void *__real_realloc(void *, size_t);
+void __real_free(void *);
+static void heap_note(void *p, size_t n, uintptr_t pc) {
+    if (!p || !lib_active() || !sim::g_symtab.is_repo(pc)) return;
+    W->heap.push_back(World::HeapObj{(uintptr_t)p, n, W->tasks.cur()->id});
+    W->pr_heap++;
+}
+static void heap_forget(void *p) {
+    if (!p || !W || W->heap.empty()) return;
+    for (size_t i = 0; i < W->heap.size(); i++)
+        if (W->heap[i].p == (uintptr_t)p) { W->heap.erase(W->heap.begin() + i); return; }
+}
+void *__wrap_malloc(size_t n) { void *p = __real_malloc(n); heap_note(p, n, (uintptr_t)__builtin_return_address(0)); return p; }
+void *__wrap_calloc(size_t a, size_t b) { void *p = __real_calloc(a, b); heap_note(p, a * b, (uintptr_t)__builtin_return_address(0)); return p; }
+void *__wrap_realloc(void *o, size_t n) { heap_forget(o); void *p = __real_realloc(o, n); heap_note(p, n, (uintptr_t)__builtin_return_address(0)); return p; }
+void __wrap_free(void *p) { heap_forget(p); __real_free(p); }
+
+// Every other libc function that POSIX lists as "need not be thread-safe" (hidden static state): a generic trampoline saves the
+// argument registers, reports the call if it comes from library code, and tail-jumps to the real function.
+void reent_libc_trap(uintptr_t pc, const char *name) {
+    if (lib_active() && sim::g_symtab.is_repo(pc))
+        violation(std::string("shared-state:libc-") + name + ":" + sim::g_symtab.func(pc),
+                  sim::g_symtab.func(pc) + "() calls " + name + "(), which keeps hidden static state inside libc (POSIX: need not be thread-safe)");
+}
+#define DENY_LIBC(name)                                                                                                         \
+    __asm__(".text\n.globl __wrap_" #name "\n.type __wrap_" #name ",@function\n__wrap_" #name ":\n"                            \
+            "  push %rdi\n  push %rsi\n  push %rdx\n  push %rcx\n  push %r8\n  push %r9\n  push %rax\n  sub $16,%rsp\n"      \
+            "  movsd %xmm0,(%rsp)\n  mov 72(%rsp),%rdi\n  lea .Lname_" #name "(%rip),%rsi\n  call reent_libc_trap\n"           \
+            "  movsd (%rsp),%xmm0\n  add $16,%rsp\n  pop %rax\n  pop %r9\n  pop %r8\n  pop %rcx\n  pop %rdx\n  pop %rsi\n"     \
+            "  pop %rdi\n  jmp __real_" #name "\n.section .rodata\n.Lname_" #name ": .asciz \"" #name "\"\n.text\n");
+#include "libc_denylist.inc"
+
 void *__wrap_memset(void *d, int c, size_t n) {
     uintptr_t pc = (uintptr_t)__builtin_return_address(0);
     if (lib_active() && sim::g_symtab.is_repo(pc) && n) {
@@ -551,7 +609,7 @@ static uint64_t do_call(const Call &c, bool &skipped) {
     uint64_t res = 0;
     int tid = w.tasks.cur() ? w.tasks.cur()->id : -1;  // -1: set-up phase (main context, not monitored)
     if (tid >= 0) w.in_shared_call[tid] = o->shared;
-    auto enter = [&] { if (tid >= 0) w.in_call[tid] = 1; w.calls++; };
+    auto enter = [&] { if (tid >= 0) { w.in_call[tid] = 1; snprintf(w.cur_fn, sizeof w.cur_fn, "%s%s%s", c.fn.c_str(), c.fmt.empty() ? "" : ".", c.fmt.c_str()); } w.calls++; };
     auto leave = [&] { if (tid >= 0) w.in_call[tid] = 0; };
     // callers never hand a shared (read-only) object to a function that writes its argument
     if (tid >= 0 && o->shared && c.fn != "get" && c.fn != "vss_decode" && c.fn != "vss_pathlen" && c.fn != "can_paylen" && c.fn != "can_payoff") { skipped = true; return 0; }
@@ -751,8 +809,21 @@ static void init_arena() {
     for (auto &o : w.objs) fill(o.p, o.size, o.seed);
 }
 
+// guard layout: while the callers run, only the objects' own pages are accessible (shared read-only objects: readable only)
+static void protect_arena(bool on) {
+    World &w = *W;
+    if (!w.guard_layout) return;
+    if (!on) { mprotect(kArena, kArenaSize, PROT_READ | PROT_WRITE); return; }
+    mprotect(kArena, kArenaSize, PROT_NONE);
+    for (auto &o : w.objs) {
+        uintptr_t lo = (uintptr_t)o.p & ~(uintptr_t)(kPage - 1), hi = ((uintptr_t)o.p + o.size + kPage - 1) & ~(uintptr_t)(kPage - 1);
+        mprotect((void *)lo, hi - lo, o.shared ? PROT_READ : PROT_READ | PROT_WRITE);
+    }
+}
+
 static Snapshot run_phase(bool interleave) {
     World &w = *W;
+    protect_arena(false);
     init_arena();
     sim::g_tasks = nullptr;
     w.tasks = sim::Tasks();
@@ -766,6 +837,7 @@ static Snapshot run_phase(bool interleave) {
     w.in_shared_call.assign(w.prog.size(), false);
     w.in_call.assign(w.prog.size(), 0);
     w.result_fn.assign(w.prog.size(), {});
+    protect_arena(true);
     for (size_t t = 0; t < w.prog.size(); t++) {
         w.tasks.spawn(strf("caller%zu", t), [t]() -> int {
             World &w = *W;
@@ -802,6 +874,7 @@ static Snapshot run_phase(bool interleave) {
         if (sim::g_shm) snprintf(sim::g_shm->cur_task, sizeof sim::g_shm->cur_task, "caller%d", c->id);
         w.tasks.switch_to(c);
     }
+    protect_arena(false);
     Snapshot s;
     s.results = w.results;
     s.arena.assign(kArena, kArena + kArenaSize);
@@ -832,6 +905,8 @@ static void exec(const std::string &text, bool verbose) {
             w.policy = s.substr(0, col);
             if (col != std::string::npos) { w.p = atof(s.c_str() + col + 1); w.pct_changes = atoi(s.c_str() + col + 1); }
             sseed = kv.u64("sseed", 1);
+            w.guard_layout = kv.str("layout", "packed") == "guard";
+            if (w.guard_layout) cursor = kPage;
             w.prog.assign(ntasks, {});
         } else if (kv.op == "obj") {
             Obj o;
@@ -840,10 +915,19 @@ static void exec(const std::string &text, bool verbose) {
             o.size = kv.u64("size");
             o.seed = kv.u64("seed");
             o.shared = kv.u64("shared", 0);
-            cursor += kv.u64("gap", 0);
-            if (cursor + o.size + 64 > kArenaSize || o.size == 0) continue;
-            o.p = kArena + cursor;
-            cursor += o.size;
+            if (w.guard_layout) {
+                // [guard page][object pages][guard page]: the object ends at the upper guard, or (every other object) starts at the lower one
+                size_t pages = (o.size + kPage - 1) / kPage;
+                if (cursor + (pages + 2) * kPage > kArenaSize || o.size == 0) continue;
+                size_t base = cursor + kPage;  // first object page (cursor itself is the lower guard page)
+                o.p = (o.seed & 4) ? kArena + base : kArena + base + pages * kPage - o.size;
+                cursor = base + pages * kPage;  // the next object's lower guard = this object's upper guard
+            } else {
+                cursor += kv.u64("gap", 0);
+                if (cursor + o.size + 64 > kArenaSize || o.size == 0) continue;
+                o.p = kArena + cursor;
+                cursor += o.size;
+            }
             w.obj_index[o.id] = (int)w.objs.size();
             w.objs.push_back(o);
         } else if (kv.op == "call") {
@@ -918,7 +1002,9 @@ static void exec(const std::string &text, bool verbose) {
     g_res.counters["probe.load_from_writable_static"] = w.pr_static_load;
     g_res.counters["probe.load_from_unknown_region"] = w.pr_unknown_load;
     g_res.counters["probe.calls_with_invalid_arguments"] = w.pr_badargs;
+    g_res.counters["library_heap_blocks"] = w.pr_heap;
     g_res.counters["scen." + saved_policy] = 1;
+    g_res.counters[w.guard_layout ? "layout.guard_pages" : "layout.packed"] = 1;
     sim::finish_run(g_res);
 }
 
@@ -929,11 +1015,27 @@ static sim::RunResult on_crash(const sim::CrashInfo &ci) {
         uint64_t pc = 0;
         size_t p = ci.note.find("pc=");
         if (p != std::string::npos) pc = strtoull(ci.note.c_str() + p + 3, nullptr, 16);
+        size_t gp = ci.note.find("guard=");
+        if (gp != std::string::npos && ci.note.find("incall=1") != std::string::npos && !(pc && sim::g_symtab.is_repo(pc))) {
+            // the fault happened in a callee of the library (libc string/memory function) during a library call
+            size_t cp = ci.note.find("call=");
+            std::string call = cp == std::string::npos ? "?" : ci.note.substr(cp + 5, ci.note.find(' ', cp) - cp - 5);
+            r.status = 1;
+            r.nontrivial = true;
+            r.sig = "reent:shared-state:guard:" + call;
+            r.detail = strf("a libc function called on behalf of %s touched memory outside the objects passed in (page protection): %s", call.c_str(), ci.note.c_str() + gp + 6);
+            return r;
+        }
         if (pc && sim::g_symtab.is_repo(pc)) {
             r.status = 1;
             r.nontrivial = true;
-            r.sig = strf("reent:crash:%s", sim::g_symtab.func(pc).c_str());
-            r.detail = strf("fatal signal in %s() (%s)", sim::g_symtab.func(pc).c_str(), ci.note.c_str());
+            if (gp != std::string::npos) {
+                r.sig = strf("reent:shared-state:guard:%s", sim::g_symtab.func(pc).c_str());
+                r.detail = strf("%s() touched memory outside the objects passed to it (page protection): %s", sim::g_symtab.func(pc).c_str(), ci.note.c_str() + gp + 6);
+            } else {
+                r.sig = strf("reent:crash:%s", sim::g_symtab.func(pc).c_str());
+                r.detail = strf("fatal signal in %s() (%s)", sim::g_symtab.func(pc).c_str(), ci.note.c_str());
+            }
             return r;
         }
     }
@@ -943,9 +1045,30 @@ static sim::RunResult on_crash(const sim::CrashInfo &ci) {
     return r;
 }
 
-static void fatal_handler(int sig, siginfo_t *, void *uc) {
+static void fatal_handler(int sig, siginfo_t *si, void *uc) {
     ucontext_t *u = (ucontext_t *)uc;
-    if (sim::g_shm) snprintf(sim::g_shm->note, sizeof sim::g_shm->note, "pc=0x%llx signal=%d", (unsigned long long)u->uc_mcontext.gregs[REG_RIP], sig);
+    char what[160] = "";
+    uintptr_t a = (uintptr_t)si->si_addr;
+    if (W && (sig == SIGSEGV || sig == SIGBUS) && a >= (uintptr_t)kArena && a < (uintptr_t)kArena + kArenaSize) {
+        // which object is the faulting address next to / inside?
+        const Obj *best = nullptr;
+        long best_d = 1L << 40;
+        for (auto &o : W->objs) {
+            long d = a < (uintptr_t)o.p ? (long)((uintptr_t)o.p - a) : a >= (uintptr_t)o.p + o.size ? (long)(a - ((uintptr_t)o.p + o.size) + 1) : 0;
+            if (d < best_d) { best_d = d; best = &o; }
+        }
+        int cur = W->tasks.cur() ? W->tasks.cur()->id : -1;
+        if (best && best_d == 0)
+            snprintf(what, sizeof what, " guard=task-%d-%s-byte-%ld-of-%s-object-%d(task-%d,%zu-bytes)", cur, (u->uc_mcontext.gregs[REG_ERR] & 2) ? "wrote" : "read",
+                     (long)(a - (uintptr_t)best->p), best->shared ? "shared-read-only" : "foreign", best->id, best->task, best->size);
+        else if (best)
+            snprintf(what, sizeof what, " guard=task-%d-%s-%ld-byte(s)-%s-object-%d(task-%d,%zu-bytes)", cur, (u->uc_mcontext.gregs[REG_ERR] & 2) ? "wrote" : "read",
+                     a < (uintptr_t)best->p ? (long)((uintptr_t)best->p - a) : (long)(a - ((uintptr_t)best->p + best->size) + 1),
+                     a < (uintptr_t)best->p ? "before-the-start-of" : "past-the-end-of", best->id, best->task, best->size);
+    }
+    bool incall = W && W->tasks.cur() && W->in_call[W->tasks.cur()->id];
+    if (sim::g_shm) snprintf(sim::g_shm->note, sizeof sim::g_shm->note, "pc=0x%llx signal=%d addr=0x%llx incall=%d call=%s%s", (unsigned long long)u->uc_mcontext.gregs[REG_RIP], sig,
+                             (unsigned long long)a, (int)incall, incall ? W->cur_fn : "-", what);
     _exit(128 + sig);
 }
 
